@@ -13,6 +13,7 @@ import (
 	"runtime"
 	"strings"
 	"sync"
+	"syscall"
 	"time"
 )
 
@@ -45,6 +46,7 @@ func startWorker() (*wproc, error) {
 		return nil, err
 	}
 	cmd := exec.Command(self)
+	cmd.SysProcAttr = &syscall.SysProcAttr{Pdeathsig: syscall.SIGKILL}
 	cmd.Env = append(os.Environ(), "C10_WORKER=1", "GOMEMLIMIT=1GiB", "GOTRACEBACK=single", "GOMAXPROCS=2")
 	in, err := cmd.StdinPipe()
 	if err != nil {
